@@ -100,6 +100,7 @@ def oracle_structure(case, all_limit=5000) -> list:
     text = ssref.bpseq_text(seq, pairs)
     out = []
     b = BpSeq.from_string(text)
+    _decoys = [BpSeq.from_string(t) for t in ssref.decoy_texts(len(seq))]  # other objects alive while this one is asked
     if str(b) != text:
         out.append(D("C01:bpseq:text-roundtrip", f"str(from_string(t)) != t for {text!r}"))
     b2 = BpSeq.from_string(str(b))
